@@ -9,6 +9,7 @@ def run(res):
     # three listeners: the killer runs before / between / after its victims, all orders
     c, ov = dc.consts(H=3, subs='Subs_Fixed', beh='Beh_C10_H1', maxq=1, maxeid=2, clear=False)
     dc.check_and_replay(res, 'c10_h3', c, ov, depth_all=0, walks=2000)
+    dc.trace_validate(res, 1000 if thorough else 100, 50)
     # non-vacuity: as implemented (no dead-reference check) the model calls a dead receiver
     c2, ov2 = dc.consts(H=2, subs='Subs_AllA', beh='Beh_C10', maxq=1, maxeid=2, skips=False)
     dc.switch_run(res, 'c10_asimpl_dead', c2, ov2, expect=('NoBad',))
